@@ -18,13 +18,13 @@ Proof. unfold counts_nonneg; cbn; repeat split; discriminate. Qed.
    and the carve succeeds with 14 slices *)
 Example ex_carve_fits_odd_address :
   let n := required_buffer_size ex_counts true in
-  n = 3340 /\ 0 <= 4099 /\ 4099 + n + 8 <= 2 ^ 64 /\
-  match carve 4099 n (inst ex_counts true ft_allocs) with Done l => List.length l = 14%nat | _ => False end.
+  n = 3120 /\ 0 <= 4097 /\ 4097 + n + 8 <= 2 ^ 64 /\
+  match carve 4097 n (inst ex_counts true ft_allocs) with Done l => List.length l = 14%nat | _ => False end.
 Proof. vm_compute. repeat split; discriminate. Qed.
 
 (* 3 bytes of padding are really needed at that address: slack - 1 bytes less fail *)
 Example ex_carve_needs_slack :
-  carve 4099 (required_buffer_size ex_counts true - 2) (inst ex_counts true ft_allocs) = Short /\
+  carve 4097 (required_buffer_size ex_counts true - 2) (inst ex_counts true ft_allocs) = Short /\
   exists l, carve 4096 (required_buffer_size ex_counts true - 4) (inst ex_counts true ft_allocs) = Done l.
 Proof. split; [vm_compute; reflexivity|]. eexists. vm_compute. reflexivity. Qed.
 
@@ -39,7 +39,7 @@ Example hb_carve_fits_needs_other_points_refuted :
   exists c a, counts_nonneg c /\ c_max_other_points c = 0 /\
     carve a (required_buffer_size c false) (inst c false hb_allocs) = Short.
 Proof.
-  exists {| c_points := 5; c_contours := 1; c_max_simple_points := 5; c_max_other_points := 0;
+  exists {| c_points := 5; c_contours := 2; c_max_simple_points := 5; c_max_other_points := 0;
             c_max_component_delta_stack := 0; c_max_stack := 0; c_cvt_count := 0; c_storage_count := 0;
             c_max_twilight_points := 0; c_has_hinting := false; c_has_variations := true |}, 4097.
   split; [unfold counts_nonneg; cbn; repeat split; discriminate|]. split; vm_compute; reflexivity.
@@ -68,7 +68,7 @@ Proof. vm_compute. repeat split; reflexivity. Qed.
 (* a contour starting off-curve, both styles; an error case (lone cubic off-curve) *)
 Example ex_to_path_ft :
   option_map (map enc_cmd) (to_path_model 0 [(0, 0, 0); (64, 0, 1); (64, 64, 0)] [2]) =
-  Some [(0, [64; 0]); (2, [64; 64; 32; 32]); (2, [0; 0; 64; 0]); (4, [])].
+  Some [(0, [32; 32]); (2, [0; 0; 64; 0]); (2, [64; 64; 32; 32]); (4, [])].
 Proof. vm_compute. reflexivity. Qed.
 Example ex_to_path_hb :
   option_map (map enc_cmd) (to_path_model 1 [(0, 0, 0); (64, 0, 1); (64, 64, 0)] [2]) =
